@@ -737,6 +737,14 @@ func (b *Builder) callMulti(call *ast.CallExpr, nres int) []*Term {
 			if lits := b.funcVarLits(v); len(lits) > 0 {
 				return b.dispatchLits(call, id, lits)
 			}
+			if root := b.rootFuncSrc(); root != nil && root.Pkg.TypesInfo == b.info {
+				if lits, named := rangeOverFuncs(root.Decl.Body, b.info, v); len(named) > 0 {
+					b.dispatchFns = named
+					out := b.dispatchLits(call, id, lits)
+					b.dispatchFns = nil
+					return out
+				}
+			}
 			if out, ok := b.handlerMapCall(call, id, v); ok {
 				return out
 			}
@@ -979,25 +987,65 @@ func litParamArgs(body *ast.BlockStmt, info *types.Info, v *types.Var) []*ast.Fu
 	return lits
 }
 
+// rootFuncSrc: the source of the function whose body is being built (through literals).
+func (b *Builder) rootFuncSrc() *FuncSrc {
+	root := b.inst
+	for root != nil && root.Fn == nil {
+		if root.Lexical != nil {
+			root = root.Lexical
+		} else {
+			root = root.Parent
+		}
+	}
+	if root == nil || root.Fn == nil {
+		return nil
+	}
+	return b.P.Funcs[root.Fn.Origin()]
+}
+
 // rangeOverLits: v is the value variable of a range over a list of function literals - the
 // composite literal itself or a local variable bound once to it (a table of checks run in order).
 func rangeOverLits(body *ast.BlockStmt, info *types.Info, v *types.Var) []*ast.FuncLit {
+	lits, _ := rangeOverFuncs(body, info, v)
+	return lits
+}
+
+// rangeOverFuncs: as rangeOverLits, for a list that mixes function literals and named functions;
+// the second result lists the named ones (nil lits and nil fns: not such a loop).
+func rangeOverFuncs(body *ast.BlockStmt, info *types.Info, v *types.Var) ([]*ast.FuncLit, []*types.Func) {
 	var lits []*ast.FuncLit
+	var named []*types.Func
+	var curNamed []*types.Func
 	litsOf := func(e ast.Expr) []*ast.FuncLit {
+		curNamed = nil
 		cl, ok := ast.Unparen(e).(*ast.CompositeLit)
 		if !ok || len(cl.Elts) == 0 {
 			return nil
 		}
-		var out []*ast.FuncLit
+		out := []*ast.FuncLit{}
 		for _, el := range cl.Elts {
 			if kv, isKV := el.(*ast.KeyValueExpr); isKV {
 				el = kv.Value
 			}
-			fl, isLit := ast.Unparen(el).(*ast.FuncLit)
-			if !isLit {
-				return nil
+			switch x := ast.Unparen(el).(type) {
+			case *ast.FuncLit:
+				out = append(out, x)
+				continue
+			case *ast.Ident:
+				if fn, isFn := info.Uses[x].(*types.Func); isFn {
+					curNamed = append(curNamed, fn)
+					continue
+				}
+			case *ast.SelectorExpr:
+				if fn, isFn := info.Uses[x.Sel].(*types.Func); isFn {
+					if _, isSel := info.Selections[x]; !isSel {
+						curNamed = append(curNamed, fn)
+						continue
+					}
+				}
 			}
-			out = append(out, fl)
+			curNamed = nil
+			return nil
 		}
 		return out
 	}
@@ -1011,7 +1059,7 @@ func rangeOverLits(body *ast.BlockStmt, info *types.Info, v *types.Var) []*ast.F
 			return true
 		}
 		if l := litsOf(rs.X); l != nil {
-			lits = l
+			lits, named = l, curNamed
 			return true
 		}
 		xid, ok := ast.Unparen(rs.X).(*ast.Ident)
@@ -1022,6 +1070,7 @@ func rangeOverLits(body *ast.BlockStmt, info *types.Info, v *types.Var) []*ast.F
 		// the list variable: bound exactly once, to a literal of function literals, never indexed for writing
 		nbind := 0
 		var found []*ast.FuncLit
+		var foundNamed []*types.Func
 		okAll := true
 		ast.Inspect(body, func(m ast.Node) bool {
 			switch x := m.(type) {
@@ -1031,6 +1080,7 @@ func rangeOverLits(body *ast.BlockStmt, info *types.Info, v *types.Var) []*ast.F
 						nbind++
 						if len(x.Rhs) == len(x.Lhs) {
 							found = litsOf(x.Rhs[i])
+							foundNamed = curNamed
 						}
 					}
 					if ix, isIx := l.(*ast.IndexExpr); isIx {
@@ -1045,6 +1095,7 @@ func rangeOverLits(body *ast.BlockStmt, info *types.Info, v *types.Var) []*ast.F
 						nbind++
 						if i < len(x.Values) {
 							found = litsOf(x.Values[i])
+							foundNamed = curNamed
 						}
 					}
 				}
@@ -1052,11 +1103,14 @@ func rangeOverLits(body *ast.BlockStmt, info *types.Info, v *types.Var) []*ast.F
 			return true
 		})
 		if nbind == 1 && okAll && found != nil {
-			lits = found
+			lits, named = found, foundNamed
 		}
 		return true
 	})
-	return lits
+	if len(lits) == 0 && len(named) == 0 {
+		return nil, nil
+	}
+	return lits, named
 }
 
 // funcVarLits: every assignment to the local function variable v (in the
@@ -1084,7 +1138,7 @@ func (b *Builder) funcVarLits(v *types.Var) []*ast.FuncLit {
 	if pl := litParamArgs(fs.Decl.Body, info, v); pl != nil {
 		return pl
 	}
-	if rl := rangeOverLits(fs.Decl.Body, info, v); rl != nil {
+	if rl, named := rangeOverFuncs(fs.Decl.Body, info, v); len(rl) > 0 && len(named) == 0 {
 		return rl
 	}
 	var lits []*ast.FuncLit
@@ -1379,6 +1433,36 @@ func (b *Builder) dispatchLits(call *ast.CallExpr, id *ast.Ident, lits []*ast.Fu
 			b.jump(done)
 			b.start(fN)
 		}
+	}
+	fns := b.dispatchFns
+	b.dispatchFns = nil
+	for _, fn := range fns {
+		tN, fN := b.label(), b.label()
+		br := b.newNode(NBranch, call.Pos())
+		br.Cond = &Term{Op: "isfn", Name: b.P.abbrev(fn.FullName()), Args: []*Term{ft}}
+		b.emit(br)
+		br.Succ = []*Node{tN, fN}
+		b.cur = nil
+		b.start(tN)
+		if b.fnBind == nil {
+			b.fnBind = map[types.Object]*types.Func{}
+		}
+		vobj := b.info.Uses[id]
+		prev, had := b.fnBind[vobj]
+		b.fnBind[vobj] = fn
+		outs := b.callMulti(call, nres)
+		if had {
+			b.fnBind[vobj] = prev
+		} else {
+			delete(b.fnBind, vobj)
+		}
+		for i, tv := range temps {
+			if i < len(outs) {
+				b.assignVar(tv, outs[i], call.Pos())
+			}
+		}
+		b.jump(done)
+		b.start(fN)
 	}
 	// none of the known literals (nil function value or a literal not yet evaluated): opaque call
 	t := &Term{Op: "call", Name: "dyn", Args: append([]*Term{ft}, args...), Pos: call.Pos()}
